@@ -63,6 +63,12 @@ fn pair_matches(p: &Pair, f: u32, last_us: Option<i64>) -> bool {
     }
 }
 
+/// lowest and highest wall-clock reading logged between two log positions (inclusive)
+fn wall_window(h: &Hist, from: usize, to: usize) -> (i128, i128) {
+    let it = h.stamps[from..=to.max(from)].iter().map(|s| s.0);
+    (it.clone().min().unwrap(), it.max().unwrap())
+}
+
 pub fn check_history(h: &Hist) -> Result<(bool, Vec<&'static str>), Failure> {
     let log = &h.log;
     let evals = evaluate(h);
@@ -137,10 +143,10 @@ pub fn check_history(h: &Hist) -> Result<(bool, Vec<&'static str>), Failure> {
                     let ok = matches!(answer, HttpAnswer::Response { authentic: true, status, body: BodyView::Doc(_), .. } if (200..300).contains(status));
                     prev = cur;
                     if ok {
-                        let t = h.stamps[i].0;
-                        // last-contact := some instant from now until the next policy call
-                        let hi = log[i..].iter().position(|o| matches!(o, Op::NextTime { .. })).map(|k| h.stamps[i + k].0).unwrap_or(i128::MAX);
-                        cur = Pair { failures: 0, last: Some((t, hi)) };
+                        // last-contact := some instant from now until the next policy call (within this life: a restart
+                        // may come with a stepped wall clock)
+                        let to = log[i..].iter().position(|o| matches!(o, Op::NextTime { .. } | Op::Build { .. } | Op::Crash { .. })).map(|k| i + k).unwrap_or(log.len() - 1);
+                        cur = Pair { failures: 0, last: Some(wall_window(h, i, to)) };
                         kinds.insert("ping_ok");
                     } else {
                         cur = Pair { failures: cur.failures + 1, last: cur.last };
@@ -177,7 +183,7 @@ pub fn check_history(h: &Hist) -> Result<(bool, Vec<&'static str>), Failure> {
                 };
                 cur = Pair {
                     failures: if failed { cur.failures + 1 } else { 0 },
-                    last: if updated { Some((answered_at.map(|k| h.stamps[k].0).unwrap_or(h.stamps[ev.seg.start].0), h.stamps[i].0)) } else { cur.last },
+                    last: if updated { Some(wall_window(h, answered_at.unwrap_or(ev.seg.start), i)) } else { cur.last },
                 };
                 kinds.insert(match r {
                     ResultView::Ok(_) => {
@@ -264,6 +270,19 @@ pub fn check_history(h: &Hist) -> Result<(bool, Vec<&'static str>), Failure> {
     Ok((nontrivial, classes))
 }
 
+/// wall clock at the start of the life after a restart: unchanged, or stepped back / forward (a device whose clock is
+/// not yet synchronised after a reboot reads earlier than the stored last-contact time)
+pub fn gen_restart_wall(t: &mut Tape, script: &Script) -> Option<i128> {
+    const HOUR: i128 = 3_600_000_000_000;
+    match t.weighted(&[3, 1, 1, 1, 1]) {
+        0 => None,
+        1 => Some(script.start_wall_ns - HOUR),
+        2 => Some(script.start_wall_ns - 24 * HOUR - t.choose(1000) as i128),
+        3 => Some(1_000_000_007),
+        _ => Some(script.start_wall_ns + 24 * HOUR),
+    }
+}
+
 pub fn gen_case(t: &mut Tape) -> (Script, LifePlan) {
     let life = LifePlan { oneshot: t.chance(1, 6), checks: 1 + t.choose(3), crash_at: None, wall_at_start: None };
     let mut script = gen_script(t, &profile());
@@ -276,7 +295,9 @@ pub fn gen_case(t: &mut Tape) -> (Script, LifePlan) {
     }
     if t.chance(1, 3) {
         script.storage_init.push(("consecutive_failed_update_checks".into(), SVal::I(1 + t.choose(5) as i64)));
-        script.storage_init.push(("last_update_time".into(), SVal::I(1_600_000_000_000_000 + t.choose(1000) as i64)));
+        // a stored last-contact time before or (clock not yet synchronised) after what the wall clock reads now
+        let base = if t.chance(1, 3) { 1_800_000_000_000_000 } else { 1_600_000_000_000_000 };
+        script.storage_init.push(("last_update_time".into(), SVal::I(base + t.choose(1000) as i64)));
     }
     (script, life)
 }
@@ -284,16 +305,22 @@ pub fn gen_case(t: &mut Tape) -> (Script, LifePlan) {
 pub fn case(t: &mut Tape, ctx: &CaseCtx) -> CaseResult {
     let (script, life) = gen_case(t);
     let max_crash_points = 1 + t.choose(400);
-    // the uncrashed run
-    let h = run_history(script.clone(), &[life]);
+    let restart_wall = gen_restart_wall(t, &script);
+    let restart = LifePlan { oneshot: false, checks: 1 + t.choose(2), crash_at: None, wall_at_start: restart_wall };
+    // the uncrashed run, followed by a clean restart
+    let h = run_history(script.clone(), &[life, restart]);
     let (mut nontrivial, mut classes) = check_history(&h)?;
+    if restart_wall.is_some() {
+        classes.push("restart_with_stepped_wall_clock");
+    }
+    let h = run_history(script.clone(), &[life]);
     let n = h.interactions.min(max_crash_points.max(60));
     // crash at every environment interaction
     let mut between = 0;
     for k in 1..=n {
         let mut l1 = life;
         l1.crash_at = Some(k);
-        let h2 = run_history(script.clone(), &[l1, LifePlan::new(false, 1, None)]);
+        let h2 = run_history(script.clone(), &[l1, LifePlan { oneshot: false, checks: 1, crash_at: None, wall_at_start: restart_wall }]);
         CRASH_RUNS.fetch_add(1, Ordering::Relaxed);
         // did the crash fall between a storage write and its commit?
         if let Some(c) = h2.log.iter().position(|o| matches!(o, Op::Crash { .. })) {
